@@ -368,6 +368,18 @@ func (b *Broker) handleConn(conn net.Conn) {
 	}
 	b.clients[client.info.cid] = client
 	b.setSession(client, connect)
+	// restore the subscriptions of an inherited session while the broker is
+	// still locked: a newer connection that takes over this client id must
+	// find them in place, or it could discard the session first and see them
+	// re-inserted by this (by then superseded) connection afterwards.
+	client.session.updateEGName(b.egName, b.name)
+	topics, qoss, _ := client.session.allSubscribes()
+	if len(topics) > 0 {
+		err = b.topicMgr.subscribe(topics, qoss, client.info.cid)
+		if err != nil {
+			logger.SpanErrorf(nil, "client %v use previous session topics %v to subscribe failed: %v", client.info.cid, topics, err)
+		}
+	}
 	b.Unlock()
 
 	err = connack.Write(conn)
@@ -381,14 +393,6 @@ func (b *Broker) handleConn(conn net.Conn) {
 		return
 	}
 
-	client.session.updateEGName(b.egName, b.name)
-	topics, qoss, _ := client.session.allSubscribes()
-	if len(topics) > 0 {
-		err = b.topicMgr.subscribe(topics, qoss, client.info.cid)
-		if err != nil {
-			logger.SpanErrorf(nil, "client %v use previous session topics %v to subscribe failed: %v", client.info.cid, topics, err)
-		}
-	}
 	go client.writeLoop()
 	client.readLoop()
 }
